@@ -19,6 +19,13 @@ Two kinds of cases, both through the extracted model (bin/c09_driver) and the re
          process return code, whether JsonRPCServer.shutdown() ran, the reply to `shutdown`, and
          which requests sent after it were answered; the model side is Model/ExitWrappers.v
          (`status`) over the same frames, the reference is `exit_ref`.
+And, judged by the statement directly (extra_checks; the model has no notion of who awaits an outgoing future):
+  live   {"kind": "live", "steps": [..]} - the real LanguageServer on a real asyncio loop; client requests with
+         the ids real clients send (1, 2, 3, ..) pending while server-initiated requests are issued through every
+         public requester shape (future, callback, send_request_async awaited in an async request handler / in an
+         async notification handler), some answered, then shutdown / late traffic / exit: every pending client
+         request answered exactly once (-32800), every unanswered outgoing future cancelled and its awaiter
+         released, nothing later looked at, exit status.  `--replay` of such a case goes through run_impl.
 """
 import json
 import logging
@@ -347,6 +354,199 @@ def _run_proc_one(case):
         return ["raise", type(ex).__name__, str(ex)[:200]]
 
 
+# ------------------------------------------------------------------ live histories (statement level)
+# {"kind": "live", "steps": [step, ..]}: the real LanguageServer on a real asyncio loop, in-memory blocking
+# writer, public API only.  Everything a server can have in flight when shutdown arrives, server-initiated
+# requests in every public requester shape included, and what each party observes afterwards:
+#   ["req", id, "susp"]      client request, async handler suspended for ever
+#   ["req", id, "await"]     client request, async handler awaits send_request_async(..)
+#   ["notif", "await"]       async NOTIFICATION handler (an untracked task) awaits send_request_async(..)
+#   ["notif", "future"]      handler keeps the future send_request(..) returned
+#   ["notif", "callback"]    handler passes a callback to send_request(..)
+#   ["reply", k]             the client answers the k-th server-initiated request (if it was issued)
+#   ["shutdown", id] | ["late", id] (a request after it) | ["exit"]
+LIVE_ASKS = [["notif", "future"], ["notif", "callback"], ["notif", "await"], ["req", None, "await"]]
+LIVE_SETTLE = 12
+
+
+def run_live(case):
+    import asyncio
+    from pygls.lsp.server import LanguageServer
+    frames = []
+
+    class W:
+        def write(self, data):
+            frames.append(json.loads(data.split(b"\r\n\r\n", 1)[1].decode("utf-8")))
+
+        def close(self):
+            pass
+    asks, started, late, status, seen = [], [], [], [None], [None]
+
+    async def main():
+        server = LanguageServer("c09-live", "v1")
+        proto = server.protocol
+        proto.set_writer(W())
+
+        def feed(payload):
+            payload = dict(payload, jsonrpc="2.0")
+            proto.handle_message(json.loads(json.dumps(payload), object_hook=proto.structure_message))
+
+        async def settle():
+            for _ in range(LIVE_SETTLE):
+                await asyncio.sleep(0)
+
+        @server.feature("t/susp")
+        async def susp(ls, params):
+            started.append(params.rid)
+            await asyncio.Event().wait()
+            return "never"
+
+        @server.feature("t/await")
+        async def aw(ls, params):
+            if params.rid is not None:
+                started.append(params.rid)
+            rec = {"shape": "await-req" if params.rid is not None else "await-notif", "tag": params.tag,
+                   "outcome": "suspended", "fut": None}
+            asks.append(rec)
+            rec["fut"] = ls.protocol.send_request_async("t/question", {"tag": params.tag})
+            try:
+                await rec["fut"]
+                rec["outcome"] = "replied"
+            except asyncio.CancelledError:
+                rec["outcome"] = "cancelled"
+                raise
+            except Exception:       # noqa
+                rec["outcome"] = "error"
+            return "done"
+
+        @server.feature("t/send")
+        def snd(ls, params):
+            rec = {"shape": params.shape, "tag": params.tag, "outcome": None, "fut": None}
+            asks.append(rec)
+            if params.shape == "callback":
+                rec["outcome"] = "not-called"
+
+                def cb(_result):
+                    rec["outcome"] = "called"
+                rec["fut"] = ls.protocol.send_request("t/question", {"tag": params.tag}, cb)
+            else:
+                rec["fut"] = ls.protocol.send_request("t/question", {"tag": params.tag})
+
+        @server.feature("t/late")
+        def lt(ls, params):
+            late.append(params.rid)
+
+        tag, answered = 0, set()
+        for st in case["steps"]:
+            tag += 1
+            try:
+                if st[0] == "req":
+                    feed({"id": st[1], "method": "t/" + st[2], "params": {"rid": st[1], "tag": tag}})
+                elif st[0] == "notif":
+                    if st[1] == "await":
+                        feed({"method": "t/await", "params": {"rid": None, "tag": tag}})
+                    else:
+                        feed({"method": "t/send", "params": {"shape": st[1], "tag": tag}})
+                elif st[0] == "reply":
+                    if st[1] < len(asks) and st[1] not in answered:      # a client answers a request once
+                        answered.add(st[1])
+                        t = asks[st[1]]["tag"]
+                        oid = [f["id"] for f in frames if f.get("method") == "t/question" and f["params"]["tag"] == t]
+                        if oid:
+                            feed({"id": oid[0], "result": "r%d" % st[1]})
+                elif st[0] == "shutdown":
+                    feed({"id": st[1], "method": "shutdown"})
+                elif st[0] == "late":
+                    feed({"id": st[1], "method": "t/late", "params": {"rid": st[1]}})
+                elif st[0] == "exit":
+                    feed({"method": "exit"})
+            except SystemExit as ex:
+                status[0] = ex.code
+                break
+            await settle()
+        await settle()
+        obs_asks = []
+        for r in asks:
+            f = r["fut"]
+            obs_asks.append([r["shape"], "none" if f is None else "cancelled" if f.cancelled() else "done" if f.done()
+                             else "pending", r["outcome"]])
+        seen[0] = len(frames)            # what follows is the harness tidying up, not the history
+        rest = [t for t in asyncio.all_tasks() if t is not asyncio.current_task()]
+        for t in rest:
+            t.cancel()
+        await asyncio.gather(*rest, return_exceptions=True)
+        return obs_asks
+
+    loop = asyncio.new_event_loop()
+    try:
+        asyncio.set_event_loop(loop)
+        obs_asks = loop.run_until_complete(main())
+    finally:
+        asyncio.set_event_loop(None)
+        loop.close()
+    replies = {}
+    for f in frames[:seen[0]]:
+        if "method" not in f:
+            r = ["error", f["error"].get("code")] if f.get("error") is not None else ["result", f.get("result")]
+            replies.setdefault(core.canon(f.get("id")), []).append(r)
+    return {"replies": replies, "asks": obs_asks, "started": sorted(map(core.canon, started)),
+            "late": late, "exit": status[0]}
+
+
+def _run_live_one(case):
+    sys.unraisablehook = lambda *a, **k: None
+    try:
+        return run_live(case)
+    except priv.Unresolvable:
+        raise
+    except BaseException as ex:     # noqa
+        return ["raise", type(ex).__name__, str(ex)[:200]]
+
+
+def live_reference(case):
+    """What the statement demands of a live history (ShutdownSpec read on these observables): shutdown answered
+    null; every client request pending then answered exactly once, RequestCancelled; every server-initiated
+    request awaiting its reply then cancelled and whoever awaits it released with the cancellation; nothing
+    but exit is looked at afterwards (replies of the client included); exit status 0 iff shut down."""
+    replies, asks, started, pend = {}, [], [], {}
+    shut, status = False, None
+    for st in case["steps"]:
+        if st[0] == "exit":
+            status = 0 if shut else 1
+            break
+        if shut:
+            continue
+        if st[0] == "req":
+            started.append(core.canon(st[1]))
+            pend[core.canon(st[1])] = len(asks) if st[2] == "await" else None
+            if st[2] == "await":
+                asks.append(["await-req", "pending", "suspended"])
+        elif st[0] == "notif":
+            asks.append({"await": ["await-notif", "pending", "suspended"], "future": ["future", "pending", None],
+                         "callback": ["callback", "pending", "not-called"]}[st[1]])
+        elif st[0] == "reply":
+            if st[1] < len(asks) and asks[st[1]][1] == "pending":
+                a = asks[st[1]]
+                a[1] = "done"
+                a[2] = {"future": None, "callback": "called"}.get(a[0], "replied")
+                for i, k in list(pend.items()):
+                    if k == st[1]:
+                        replies.setdefault(i, []).append(["result", "done"])
+                        del pend[i]
+        elif st[0] == "shutdown":
+            shut = True
+            replies.setdefault(core.canon(st[1]), []).append(["result", None])
+            for i in pend:
+                replies.setdefault(i, []).append(["error", -32800])
+            pend = {}
+            for a in asks:
+                if a[1] == "pending":
+                    a[1] = "cancelled"
+                    if a[2] == "suspended":
+                        a[2] = "cancelled"
+    return {"replies": replies, "asks": asks, "started": sorted(started), "late": [], "exit": status}
+
+
 PROC_BEHAV = {"sync": B("sync", ["ret", 7]), "async": B("async", ["ret", 8], n=1), "thread": B("thread", ["ret", 9])}
 
 
@@ -373,7 +573,9 @@ class C09(core.Property):
     rule = ("sched: a pending set drawn from {async suspended / unstarted / finished-callback-queued, thread running / "
             "queued, outgoing request, async notification, command async / thread}, then shutdown and exit at chosen "
             "positions among further traffic, under a model-guided random interleaving ended by a drain, both writer "
-            "kinds; proc: frames played to a real server subprocess (stdio, stdio-sync, tcp) ending with exit. "
+            "kinds; proc: frames played to a real server subprocess (stdio, stdio-sync, tcp) ending with exit; "
+            "live: client requests 1, 2, 3.. pending x server-initiated requests in every requester shape (future, "
+            "callback, awaited in an async request / notification handler), some answered, then shutdown, late traffic, exit. "
             "Non-trivial = shutdown accepted while at least one future is in flight, or an exit that is not preceded "
             "by an accepted shutdown")
     trusted_base = ["Coq 8.16.1 kernel incl. vm_compute (Examples, refutation witnesses of the repaired defects)",
@@ -613,6 +815,88 @@ class C09(core.Property):
                    [(t, "eof") for t in ("stdio", "tcp", "stdio-sync")]
         return [self._proc_case(rng, t, s) for t, s in plan]
 
+    # ---------------------------------------------------------------- scenarios (live)
+    def _live_case(self, rng, pre=None, shutdown=None):
+        """Client requests with the ids real clients use (1, 2, 3, .. in order of sending; now and then strings
+        or a gap), server-initiated requests in every requester shape issued among them, some answered before
+        the shutdown, then shutdown / late traffic / exit."""
+        nid = [rng.choice([0, 1, 1, 1, 1, 2])]
+        strs = rng.random() < 0.15
+
+        def cid():
+            i = nid[0]
+            nid[0] += rng.choice([1, 1, 1, 1, 2])
+            return "r%d" % i if strs else i
+        steps, nasks = [], 0
+        if pre is None:
+            pre = [rng.choice([["req", None, "susp"], ["req", None, "susp"]] + LIVE_ASKS)
+                   for _ in range(rng.choice([1, 2, 2, 3, 3, 4, 5]))]
+        for st in pre:
+            st = list(st)
+            if st[0] == "req":
+                st[1] = cid()
+            if st[-1] != "susp":
+                nasks += 1
+            steps.append(st)
+            if nasks and rng.random() < 0.15:
+                steps.append(["reply", rng.randrange(nasks)])
+        if shutdown is None:
+            shutdown = rng.random() < 0.92
+        if shutdown:
+            steps.append(["shutdown", cid()])
+            for _ in range(rng.choice([0, 0, 1, 2])):
+                steps.append(rng.choice([["late", cid()], ["reply", rng.randrange(nasks + 1)], ["notif", "future"],
+                                         ["req", cid(), "await"], ["notif", "await"]]))
+        if rng.random() < 0.85:
+            steps.append(["exit"])
+        return {"kind": "live", "steps": steps}
+
+    def _live_cases(self, chk):
+        rng = chk.rng
+        cases = []
+        # every requester shape alone and next to pending client requests 1..n (n <= 3), both orders
+        for a in LIVE_ASKS:
+            for n in range(4):
+                pend = [["req", None, "susp"]] * n
+                cases.append(self._live_case(rng, pre=pend + [a], shutdown=True))
+                if n:
+                    cases.append(self._live_case(rng, pre=[a] + pend, shutdown=True))
+        cases += [self._live_case(rng) for _ in range(chk.n(150, 1500))]
+        return cases
+
+    def _live_bad(self, case):
+        impl = _run_live_one(case)
+        S = live_reference(case)
+        return None if core.canon(impl) == core.canon(S) else (impl, S)
+
+    def _live_check(self, chk):
+        cases = self._live_cases(chk)
+        viol, pending_at_shutdown, shapes = [], 0, {}
+        for c in cases:
+            S = live_reference(c)
+            if S["exit"] != 1 and any(a[1] == "cancelled" for a in S["asks"]):
+                pending_at_shutdown += 1
+            for a in S["asks"]:
+                shapes[a[0] + "/" + a[1]] = shapes.get(a[0] + "/" + a[1], 0) + 1
+            if viol:
+                continue
+            bad = self._live_bad(c)
+            if bad:
+                # greedy shrink: drop steps while the history still fails
+                best, steps = bad, list(c["steps"])
+                k = len(steps) - 1
+                while k >= 0:
+                    cand = {"kind": "live", "steps": steps[:k] + steps[k + 1:]}
+                    b = self._live_bad(cand)
+                    if b:
+                        steps, best = cand["steps"], b
+                    k -= 1
+                viol.append({"case": {"kind": "live", "steps": steps}, "impl": best[0], "S": best[1], "M": None,
+                             "guard": True, "verdict": "violation"})
+        self.extra_coverage["live_histories"] = {"cases": len(cases), "server_request_in_flight_at_shutdown": pending_at_shutdown,
+                                                 "requester_shape_x_final_state": shapes}
+        return viol
+
     # ---------------------------------------------------------------- generate
     def generate(self, chk):
         cases = []
@@ -659,10 +943,16 @@ class C09(core.Property):
                 res = pool.map(_run_sched_one, sc, chunksize=16)
         for k, r in zip(si, res):
             out[k] = r
+        for k, c in enumerate(cases):
+            if c.get("kind") == "live":
+                out[k] = _run_live_one(c)
         return priv.collect(out)
 
     # ---------------------------------------------------------------- model
     def model_input(self, case):
+        if case.get("kind") == "live":
+            # replay of a live history: judged by the reference alone, the driver gets the empty history
+            return sched.encode_case({"cfg": {"writer": "blocking", "hook": "default", "wfail": None}, "evs": []})
         if case.get("kind") == "proc":
             evs = proc_events(case)
             return "proc %d %s" % (WRAPPER[case["transport"]],
@@ -671,6 +961,10 @@ class C09(core.Property):
         return sched.encode_case(case)
 
     def model_output(self, case, toks):
+        if case.get("kind") == "live":
+            S = live_reference(case)
+            self._nt[core.canon(case)] = True
+            return {"M": S, "S": S, "guard": True, "klass": None}
         if case.get("kind") == "proc":
             c = sched._Cur(toks)
             st = c.int()
@@ -717,6 +1011,8 @@ class C09(core.Property):
 
     # ---------------------------------------------------------------- impl |= S
     def satisfies(self, case, impl, S):
+        if case.get("kind") == "live":
+            return core.canon(impl) == core.canon(S)
         if case.get("kind") == "proc":
             return isinstance(impl, dict) and all(core.canon(impl.get(k)) == core.canon(v) for k, v in S.items())
         return self.satisfies_sched(case, impl, S) is None
@@ -862,7 +1158,7 @@ class C09(core.Property):
     def extra_checks(self, chk):
         """The extracted driver against values the kernel computed (Props/C09.v: C09_nonvacuous,
         C09_pinned_stdio_loses_status, C09_awaitable_first_exit_wins); thorough: coqchk."""
-        viol = []
+        viol = self._live_check(chk)
         ex = {"t": "notif", "tag": 0, "ver": True, "ps": "ok", "m": ["exit", None]}
         blocking = {"writer": "blocking", "hook": "default", "wfail": None}
         lines, want = [], []
@@ -903,6 +1199,11 @@ class C09(core.Property):
 
     # ---------------------------------------------------------------- shrink / search / distribution
     def shrink(self, case):
+        if case.get("kind") == "live":
+            st = case["steps"]
+            for a in range(len(st) - 1, -1, -1):
+                yield dict(case, steps=st[:a] + st[a + 1:])
+            return
         if case.get("kind") == "proc":
             ms = case["msgs"]
             for a in range(len(ms) - 1, -1, -1):
@@ -933,6 +1234,9 @@ class C09(core.Property):
         def add(k):
             d[k] = d.get(k, 0) + 1
         for c in cases:
+            if c.get("kind") == "live":
+                add("live")
+                continue
             if c.get("kind") == "proc":
                 add("proc/" + c["transport"])
                 add("proc/msgs/%d" % len(c["msgs"]))
